@@ -42,7 +42,7 @@ def run(ctx, rep):
     typedid.run(ctx, rep, "C12.a", owners=["index::indexer::Indexer.indexed"])
     n = borrow(rep, ctx, C04, lambda o: o.rule == "C04.b" and ("copy_fast" in o.key or "pack-path" in o.key), "C12.b")
     rep.floor("C12.b", "borrowed obligations", n, 1)
-    n = borrow(rep, ctx, C03, lambda o: o.rule == "R-ORDER" and re.search(r"/R-ORDER/(03|04|05|06|07|08|09|10)/", o.key), "C12.c")
+    n = borrow(rep, ctx, C03, lambda o: o.rule == "R-ORDER" and re.search(r"/R-ORDER/(03|04|05|06|07|08|09|10|15)/", o.key), "C12.c")
     rep.floor("C12.c", "borrowed obligations", n, 12)
     # ---- C12.d -------------------------------------------------------------------------------------
     CP = prog.find1(r"^rustic_core::commands::copy::copy$")
